@@ -13,7 +13,7 @@
 (*  - EmitState (an INVARIANT that is always TRUE) prints one JSON line    *)
 (*    per distinct state: its history and its candidate calls.             *)
 (***************************************************************************)
-EXTENDS PropsC, Json
+EXTENDS PropsQ, Json, Randomization
 
 CONSTANTS ScopeName, MaxDepth, Emit
 VARIABLES ir, hist
@@ -113,8 +113,26 @@ CloneEditScope ==
        names |-> {"z"}, vals |-> {}, pos |-> {NoPos}, createN |-> {0},
        queries |-> {"xf2"}, walk |-> FALSE]
 
+(* a fixed small design with colliding names for the query product (the inputs of C13 are the queries) *)
+QInit == << Cnew("N", "n"), Ccreate("NL", 1, "l", 0), Ccreate("LD", 1, "a", 0), Ccreate("LD", 1, "ab", 0),
+            Ccreate("LD", 1, "t", 0),
+            Ccreate("DP", 1, "a", 1), Ccreate("DP", 1, "A", 1),
+            Ccreate("DP", 2, "a", 2), Ccreate("DC", 2, "a", 2), Ccreate("DC", 2, "ab", 1),
+            Ccreate("DP", 3, "b", 1), Ccreate("DC", 3, "a", 1), Ccreate("DC", 3, "Ab", 1),
+            Cchild(2, NoVal, 1), Cchild(2, "a", 1), Cchild(2, "A", 1),
+            Cchild(3, "a", 2), Cchild(3, "ab", 2), Cchild(3, "b", 1),
+            Csetitem("I", 2, "k", "a"), Csetitem("I", 5, "k", "ab"), Csetitem("I", 6, "k", "a"),
+            Csetitem("D", 2, "k", "a"), Csetitem("P", 2, "k", "ab"), Csetitem("C", 2, "k", "a"),
+            Csetitem("C", 4, "k", "ab"),
+            Csetitem("D", 2, "eid", "ab"), Csetitem("P", 3, "eid", "a"),
+            Cconnect(1, IPin(3)), Cconnect(1, OPin(1, 1)), Cconnect(4, OPin(4, 3)), Cconnect(4, IPin(5)),
+            Csettopdef(1, 3) >>
+QScope == [init |-> QInit, ops |-> {}, max |-> MaxAll(0), names |-> {}, vals |-> {}, pos |-> {NoPos},
+           createN |-> {0}, queries |-> {"C13"}, walk |-> FALSE, sample |-> 3000]
+
 ScopeTable ==
-  [ clone_edit |-> CloneEditScope,
+  [ query |-> QScope,
+    clone_edit |-> CloneEditScope,
     clone |-> [XfScope EXCEPT !.queries = {"clone"}, !.names = {"a", U}, !.lookupVals = {"a", "leaf", "mid"},
                               !.ops = @ \cup {"remove:LD", "props:I"}],
     xf |-> XfScope,
@@ -191,6 +209,7 @@ QCands(s) ==
     \cup (IF "hcheck" \in Queries THEN HCheckCands(s) ELSE {})
     \cup (IF "xf" \in Queries THEN XfCands(s) ELSE {})
     \cup (IF "clone" \in Queries THEN CloneCands(s) ELSE {})
+    \cup (IF "C13" \in Queries THEN RandomSubset(Scope.sample * (MaxDepth + 1), QueryProduct(s)) \cup DirectProduct(s) ELSE {})
     \cup (IF "xf2" \in Queries
           THEN StepCands(s) \cup {[op |-> "uniquify", n |-> n] : n \in IdsN(s)}
                \cup {[op |-> "seq", calls |-> << [op |-> "uniquify", n |-> n], [op |-> "flatten", n |-> n] >>] : n \in IdsN(s)}
